@@ -196,3 +196,35 @@ def check_operator_threading(run, ix, rule, classname, kernels_prefix=('mpf_', '
                                      'kernel call does not receive the context\'s (prec, rounding) '
                                      'as its last two arguments: %s' % norm(x, 80), line=None))
     return n
+
+
+def check_exact_operand_conversion(run, ix, rule):
+    """In the operator machinery of the number classes (generated _mpf operators, the hand-written
+    _mpc operators, mpf_convert_rhs / mpf_convert_lhs) a Python int or float operand is converted
+    EXACTLY: from_int / from_float are called with the operand only.  A precision argument there
+    rounds the operand before the operation (double rounding for + - * /; a different exponent for
+    x ** n), which the single final rounding cannot undo."""
+    rel = 'mpmath/ctx_mp_python.py'
+    m = ix.module(rel)
+    fs = [f for f in m.funcs.values()
+          if (f.cls in ('_mpf', '_mpc') or f.qualname.startswith(('_mpf.', '_mpc.'))) and
+          (f.name.startswith('__') or f.name in ('mpf_convert_rhs', 'mpf_convert_lhs', 'mpc_convert_lhs', '_cmp'))
+          and f.name not in ('__new__', '__init__')]
+    n = 0
+    for f in fs:
+        for x in _walk_own(f.node):
+            if isinstance(x, ast.Call) and isinstance(x.func, ast.Name) and x.func.id in ('from_int', 'from_float'):
+                n += 1
+                if len(x.args) == 1 and not x.keywords:
+                    run.ok(rule, '%s: %s' % (f.qualname, norm(x)) if n < 6 else None)
+                else:
+                    st = x
+                    while not isinstance(st, ast.stmt):
+                        st = st._parent
+                    run.fail(Finding(rule, rel, f.qualname, norm(st),
+                                     'the Python number operand is converted with `%s`: it is rounded to the '
+                                     'working precision BEFORE the operation (for ** the exponent itself '
+                                     'changes), instead of exactly' % norm(x), line=None))
+    if n < 8:
+        raise AnalysisError('operand conversions in the operator machinery not found (%d)' % n)
+    return n
